@@ -152,9 +152,10 @@ def doOp (tab : List Row) (f : Fns) (cur : List Entry) (s : State) (ws : List St
     | some u, some n, some w, some ord =>
       if !cov (w :: ord) then none
       else
-        -- what `save_dict` is handed, if anything is saved at all
+        -- what `save_dict` is handed, if anything is saved at all (nothing for a URL without a path,
+        -- nothing for the `untitled` scheme: `save_file_dictionary` returns first, repo commit 861d597)
         let saved : Option (List Word) :=
-          if u.path then (loadFileDict f u (fileDisk s.files n)).map (insert f w) else none
+          if u.path && !u.untitled then (loadFileDict f u (fileDisk s.files n)).map (insert f w) else none
         let okOrd := match saved with
           | some d => ord.isPerm d
           | none => ord.isEmpty
